@@ -100,6 +100,6 @@ CONTRACTS = [
              ghost=[
                  Ghost("g_in_restore = True\ng_staging = staging_path", after="staging_path = ctx.output_path / ARCHIVE_STAGING"),
                  # evaluated on REAL state: the copy loop has run to completion
-                 Ghost("g_restore_ready = (k == _n0)", before="ctx.version_index.commit_changes()", optional=True),
+                 Ghost("g_restore_ready = (k == _n0)", before="call:commit_changes", optional=True),
              ]),
 ]
